@@ -172,7 +172,29 @@ def run_pipeline(cases, serial=False):
         env["RVH_SERIAL"] = "1"
     rc, out1, err1 = sh([RVH, "run"], inp=inp, timeout=3600, env=env)
     if rc != 0:
-        raise BuildError("rvh run crashed (rc=%s)" % rc, err1[-3000:])
+        # the harness process died (abort / stack overflow / signal inside the implementation):
+        # re-run in chunks, then case by case, and record the crash as that case's observation
+        lines = inp.splitlines()
+        outs = []
+        CH = 32
+        for i in range(0, len(lines), CH):
+            chunk = lines[i:i + CH]
+            rc2, o2, e2 = sh([RVH, "run"], inp="\n".join(chunk) + "\n", timeout=3600, env=env)
+            if rc2 == 0 and len(o2.splitlines()) == len(chunk):
+                outs.extend(o2.splitlines())
+                continue
+            for ln in chunk:
+                try:
+                    rc3, o3, e3 = sh([RVH, "run"], inp=ln + "\n", timeout=120, env=env)
+                except subprocess.TimeoutExpired:
+                    rc3, o3, e3 = -999, "", "timeout"
+                if rc3 == 0 and o3.strip():
+                    outs.append(o3.strip())
+                else:
+                    d = json.loads(ln)
+                    d["impl"] = {"crash": rc3, "stderr": e3[-300:]}
+                    outs.append(json.dumps(d, ensure_ascii=False))
+        out1 = "\n".join(outs) + "\n"
     rc, out2, err2 = sh([DRIVER], inp=out1, timeout=3600)
     if rc != 0:
         raise BuildError("driver crashed (rc=%s)" % rc, err2[-3000:])
@@ -217,6 +239,8 @@ def norm_result(r, is_impl):
         return ("err", C.err_projection(e))
     if "panic" in r:
         return ("panic", r["panic"])
+    if "crash" in r:
+        return ("crash", r["crash"])
     if "bad" in r:
         return ("bad", r["bad"])
     return ("ok", canon(r))
